@@ -27,6 +27,11 @@ type Config struct {
 	StallPer1k int  // probability (per 1000 scheduling steps) that the root lets simulated time pass although tasks are ready
 	LatePer1k  int  // probability (per 1000 timers) that a timer is armed late
 	MaxSteps   int
+	// SpinLimit > 0: a task that has been the only runnable one for this many consecutive
+	// scheduling points without the harness recording any progress (NoteProgress) is spinning.
+	// Simulated time is then allowed to pass (as it would in reality); if no timer is pending
+	// either, nothing can ever change what it is waiting for: the run ends with verdict "livelock".
+	SpinLimit int
 	Horizon    time.Duration
 	GOMAXPROCS int
 	Trace      bool
@@ -85,7 +90,9 @@ type TraceEntry struct {
 
 // Outcome is what the scheduler reports about one run.
 type Outcome struct {
-	Verdict     string // done | stuck | stepcap
+	Verdict     string // done | stuck | stepcap | livelock
+	Livelock    string // verdict livelock: the spinning task
+	LivelockSite string
 	Steps       int
 	Switches    int
 	SimTime     time.Duration
@@ -107,6 +114,9 @@ type Sim struct {
 	current  *Task
 	last     *Task
 	wake     chan struct{}
+	soleRun      int
+	progress     uint64
+	progressSeen uint64
 	nextID   int
 	seq      uint64
 	start    time.Time
@@ -252,6 +262,14 @@ func trimStack(b []byte) string {
 	return strings.Join(out, "\n")
 }
 
+// NoteProgress tells the scheduler that the harness has observed something (a call began or ended,
+// an item arrived): whatever runs is not merely spinning. A no-op outside a simulation.
+func NoteProgress() {
+	if s := cur; s != nil {
+		s.progress++
+	}
+}
+
 // park blocks until the root grants the token (or the task is killed at teardown).
 func (t *Task) park() {
 	select {
@@ -364,6 +382,31 @@ func (s *Sim) loop() {
 			return
 		}
 		horizonFired = false
+		if s.cfg.SpinLimit > 0 {
+			if len(ready) == 1 && ready[0] == s.last && s.progress == s.progressSeen {
+				s.soleRun++
+			} else {
+				s.soleRun = 0
+				s.progressSeen = s.progress
+			}
+			if s.soleRun > s.cfg.SpinLimit {
+				// Busy-waiting does not stop the clock in reality: let simulated time pass.
+				horizon.Reset(s.cfg.Horizon)
+				select {
+				case <-s.wake:
+					// (possibly a stale token: if nobody else has become runnable the count is
+					// still over the limit and we come straight back here)
+					continue
+				case <-horizon.C:
+				}
+				s.jumps++
+				t := ready[0]
+				s.out.Verdict = "livelock"
+				s.out.Livelock = fmt.Sprintf("%v site=%s label=%s", t, t.site, t.Label)
+				s.out.LivelockSite = t.site
+				return
+			}
+		}
 		s.out.Steps++
 		if s.out.Steps > s.cfg.MaxSteps {
 			s.out.Verdict = "stepcap"
